@@ -59,7 +59,7 @@ _env = {}
 TYPES = ['string', 'unicode', 'int', 'tinyInt', 'smallInt', 'mediumInt', 'bigInt', 'bool', 'float', 'dateTime',
          'date', 'time', 'timestamp', 'decimal', 'currency', 'decimalString', 'enum', 'blob', 'pickle', 'uuid',
          'json', 'fkInt']
-ENUM_VALUES = ['a', "b'c", 'x y', '', 'é', 'ü"%_', "''", 'NULL']
+ENUM_VALUES = ['a', "b'c", 'x y', '', 'é', 'ü"%_\\', "''", 'NULL']
 COLNAME = {'string': 'StringCol', 'unicode': 'UnicodeCol', 'int': 'IntCol', 'tinyInt': 'IntCol', 'smallInt': 'IntCol',
            'mediumInt': 'IntCol', 'bigInt': 'IntCol', 'bool': 'BoolCol', 'float': 'FloatCol', 'dateTime': 'DateTimeCol',
            'date': 'DateCol', 'time': 'TimeCol', 'timestamp': 'DateTimeCol', 'decimal': 'DecimalCol',
@@ -125,7 +125,18 @@ def env():
                 else:
                     attrs['v'] = mk[T]()
                 cls = type(name, (SQLObject,), attrs)
-                cls.createTable()
+                try:
+                    cls.createTable()
+                except Exception:
+                    if T != 'enum':
+                        raise
+                    # the DDL of the declared values is C14's business: fall back to plain values so that the
+                    # other column types are still checked (the strings with quotes go through StringCol)
+                    ENUM_VALUES[:] = ['a', 'x y', '']
+                    name = sqlo.uniq('C01EnumPlain%s' % variant.capitalize())
+                    attrs = {'_connection': conn, 'sqlmeta': sqlmeta, 'v': col.EnumCol(enumValues=list(ENUM_VALUES), default=None)}
+                    cls = type(name, (SQLObject,), attrs)
+                    cls.createTable()
                 classes[(T, variant, cache)] = cls
     _env.update(conns=conns, classes=classes, others=others)
     return _env
@@ -210,13 +221,34 @@ def model_in(v, T):
     return tok(v)
 
 
-def canon_model(t, T):
+_raw = []
+
+
+def engine_float(s):
+    """the double SQLite's own text->double conversion gives for a numeric literal (the model's uninterpreted
+    `FTok.lit`, once the text went through the engine); SQLite 3.40 is not always correctly rounded"""
+    import sqlite3
+    if not s or any(c not in '0123456789eE+-.' for c in s):
+        return None
+    if not _raw:
+        _raw.append(sqlite3.connect(':memory:'))
+    try:
+        v = _raw[0].execute('SELECT ' + s).fetchone()[0]
+    except sqlite3.Error:
+        return None
+    return float(v) if isinstance(v, (int, float)) else None
+
+
+def canon_model(t, T, engine=False):
     """interpret the uninterpreted symbols of a model value token on the harness side (stdlib only)"""
     if t is None or t in ('Invalid', 'Reject', '?', 'N', 'x'):
         return t
     k = t[0]
     if k == 'f':
         s = ''.join(chr(c) for c in uncps(t[1:]))
+        if engine:
+            v = engine_float(s)
+            return '?' if v is None else 'F' + fbits(v)
         try:
             return 'F' + fbits(float(s))
         except ValueError:
@@ -248,7 +280,7 @@ def canon_model(t, T):
 
 def canon_cell(t):
     if t.startswith('real:'):
-        return 'real:' + canon_model(t[5:], None)
+        return 'real:' + canon_model(t[5:], None, engine=True)
     return t
 
 
@@ -665,8 +697,29 @@ def replay_token(T, v):
         return None
 
 
+class Once:
+    """report each finding key once per run (the framework keeps a bounded list of failures)"""
+
+    def __init__(self, ctx):
+        self.ctx = ctx
+        self.seen = getattr(ctx, '_c01_seen', None)
+        if self.seen is None:
+            self.seen = set()
+            try:
+                ctx._c01_seen = self.seen
+            except Exception:
+                pass
+
+    def oracle_fail(self, key, what, case):
+        if key in self.seen:
+            return
+        self.seen.add(key)
+        self.ctx.oracle_fail(key, what, case)
+
+
 def oracle(ctx, e, T, v, path, variant, cache, out, cls):
     """the property on the implementation, independent of the model"""
+    ctx = Once(ctx)
     desc = describe(T, v, path, variant, cache)
     col = COLNAME[T]
     dom = in_domain(T, v)
@@ -776,11 +829,28 @@ def parse_model_w(line):
 
 
 # ----------------------------------------------------------------------------------------------- run
+def corpus_cases():
+    import glob
+    import os
+    out = []
+    here = os.path.join(os.path.dirname(os.path.dirname(os.path.abspath(__file__))), 'corpus', 'C01')
+    for path in sorted(glob.glob(os.path.join(here, '*.json'))):
+        for c in json.load(open(path, encoding='utf-8')).get('cases', []):
+            if c.get('expr') == "'OTHER0'":
+                out.append((c['type'], ('cross', 23)))
+                continue
+            out.append((c['type'], eval(c['expr'], {'D': D, 'Dec': Dec, 'uuid': uuid})))
+    return out
+
+
 def build_cases(ctx, e):
     rng = ctx.rng
-    n = ctx.budget(22, 1500)
+    n = ctx.budget(110, 1500)
     cases = []
     idx = 0
+    for T, v in corpus_cases():
+        cases.append((T, v, idx))
+        idx += 1
     for T in TYPES:
         for v in [None] + domain_values(T, ctx, n):
             cases.append((T, v, idx))
@@ -801,14 +871,15 @@ def read_stream_cases(ctx):
             '2020-13-01', '2020-00-10', '2020-01-00', '2020-01-32', '2020-04-31', '24:00:00.0', '23:60:00.0', '23:59:60.0', '23:59:59.',
             '', '.', '2020-01-02.5', '2020-1-2', '20-01-02', '02020-01-02', '2020-01-02 3:4:5.6', '1:2:3', '1:2:3.4', '12:34', 'abc',
             '2020-01-02T03:04:05.000006', '2020-01-02 03:04:05,000006', '2020-01-02 03:04:05.0000061', '2020-01-02 03:04:05.00000',
-            '03.04.05', '2020-01-021', '2020-011-02', '99:00:00.0', '2020-01-02 03:04:05.000006.7']
+            '03.04.05', '2020-01-021', '2020-011-02', '99:00:00.0', '2020-01-02 03:04:05.000006.7', '2020-01-02  03:04:05.5', '2020-01-02\t03:04:05.5', '2020-01-02\u00a003:04:05.5',
+            '2020-01-02 \n 03:04:05.5', ' 2020-01-02', '03:04:05 ']
     out = list(base)
-    for _ in range(ctx.budget(150, 5000)):
+    for _ in range(ctx.budget(600, 8000)):
         r = rng.random()
         if r < 0.4:
             s = rng.choice(base)
             i = rng.randint(0, len(s))
-            s = s[:i] + rng.choice('0123456789-:. x') + s[i + (1 if rng.random() < 0.5 else 0):]
+            s = s[:i] + rng.choice('0123456789-:.x') + s[i + (1 if rng.random() < 0.5 else 0):]
         elif r < 0.7:
             s = '%d-%d-%d' % (rng.randint(0, 10000), rng.randint(0, 13), rng.randint(0, 32))
             if rng.random() < 0.5:
@@ -912,7 +983,7 @@ def run(ctx):
                     r = out['reads']['fresh']
                     ird = r[0] if r[0] != 'ok' else canon_model(tok(r[1], T if T in ('json', 'pickle') else None), T)
                 if ird != 'x':
-                    ctx.compare('readBack: model toPy(fetch(store)) = fresh get', desc, canon_model(m['rd'], T), ird)
+                    ctx.compare('readBack: model toPy(fetch(store)) = fresh get', desc, canon_model(m['rd'], T, engine=True), ird)
             # query
             if m['q'] in ('0', '1') and out['write'] == 'ok' and not (type(v) is float and v != v):
                 q = queries(cls, T, v)
